@@ -7,8 +7,47 @@ import (
 	"bufio"
 	"fmt"
 	"os"
+	"runtime"
 	"strconv"
+	"time"
 )
+
+// cases run one after the other on a single worker goroutine; a case that does not return within
+// the limit is reported as "timeout" and the worker is abandoned (a hang is an observation)
+type job struct {
+	line string
+	out  chan string
+}
+
+var jobs chan job
+
+func worker(in chan job) {
+	for j := range in {
+		j.out <- run(j.line)
+	}
+}
+
+func runGuarded(line string) string {
+	if jobs == nil {
+		jobs = make(chan job)
+		go worker(jobs)
+	}
+	limit := 20 * time.Second
+	if v := os.Getenv("HARNESS_CASE_TIMEOUT_S"); v != "" {
+		if n, err := strconv.Atoi(v); err == nil {
+			limit = time.Duration(n) * time.Second
+		}
+	}
+	j := job{line: line, out: make(chan string, 1)}
+	jobs <- j
+	select {
+	case r := <-j.out:
+		return r
+	case <-time.After(limit):
+		jobs = nil // abandon the stuck worker
+		return "timeout"
+	}
+}
 
 func main() {
 	if len(os.Args) < 2 {
@@ -32,8 +71,11 @@ func main() {
 	case "exec":
 		sc := bufio.NewScanner(os.Stdin)
 		sc.Buffer(make([]byte, 1<<20), 1<<26)
+		// one P: the scratch-buffer pools are then reused deterministically from call to call, so a
+		// result that depends on an earlier call's data shows up as a disagreement with the model
+		runtime.GOMAXPROCS(1)
 		for sc.Scan() {
-			fmt.Fprintln(w, run(sc.Text()))
+			fmt.Fprintln(w, runGuarded(sc.Text()))
 		}
 	default:
 		if !extraCommand(os.Args[1:], w) {
